@@ -582,17 +582,17 @@ class Process(StateMachine, persistence.Savable, metaclass=ProcessStateMachineMe
         """
         stack_copy = PROCESS_STACK.get().copy()
         stack_copy.append(self)
-        PROCESS_STACK.set(stack_copy)
+        token = PROCESS_STACK.set(stack_copy)
         try:
             yield None
         finally:
-            assert Process.current() is self, (
-                'Somehow, the process at the top of the stack is not me, but another process! '
-                f'({self} != {Process.current()})'
-            )
-            stack_copy = PROCESS_STACK.get().copy()
-            stack_copy.pop()
-            PROCESS_STACK.set(stack_copy)
+            try:
+                PROCESS_STACK.reset(token)
+            except ValueError:
+                # The scope is being closed in another context than the one it was opened in: the coroutine of a pending
+                # task that nobody refers to any more is finalised by the garbage collector, in the context of whatever
+                # code is running at that moment.  The stack of that context is not ours to change.
+                pass
 
     async def _run_task(self, callback: Callable[..., T], *args: Any, **kwargs: Any) -> T:
         """
